@@ -18,6 +18,7 @@ import (
 	"os"
 	"os/exec"
 	"path/filepath"
+	"regexp"
 	"sort"
 	"strings"
 	"sync"
@@ -87,6 +88,27 @@ type checker struct {
 	gcImp    types.Importer
 	fset     *token.FileSet
 	Runs     int
+	ws       chan *worker // pool of in-process generators (steering only); nil = always the binary
+	all      []*worker
+	FastRuns int
+}
+
+// startWorkers creates the pool of generator workers.
+func (c *checker) startWorkers(self string, n int) {
+	c.ws = make(chan *worker, n)
+	for i := 0; i < n; i++ {
+		w := &worker{self: self}
+		c.all = append(c.all, w)
+		c.ws <- w
+	}
+}
+
+func (c *checker) stopWorkers() (deaths int) {
+	for _, w := range c.all {
+		w.stop()
+		deaths += w.dead
+	}
+	return
 }
 
 func newChecker(root, repo, thriftgo string) (*checker, error) {
@@ -136,8 +158,13 @@ func newChecker(root, repo, thriftgo string) (*checker, error) {
 	return c, nil
 }
 
-// run executes the pipeline for one raw unit. typecheck=false stops after go/parser.
-func (c *checker) run(u *rawUnit, typecheck bool) *result {
+// run executes the pipeline for one raw unit with the thriftgo BINARY. typecheck=false stops after go/parser.
+func (c *checker) run(u *rawUnit, typecheck bool) *result { return c.runWith(u, typecheck, false) }
+
+// runFast is run with the generator of the worker process instead of the binary (shrinker candidates).
+func (c *checker) runFast(u *rawUnit) *result { return c.runWith(u, true, c.ws != nil) }
+
+func (c *checker) runWith(u *rawUnit, typecheck, viaWorker bool) *result {
 	c.mu.Lock()
 	c.n++
 	n := c.n
@@ -168,20 +195,32 @@ func (c *checker) run(u *rawUnit, typecheck bool) *result {
 		args = append(args, "-r")
 	}
 	args = append(args, "-g", be+":"+strings.Join(opts, ","), "-o", out, u.Main)
-	cmd := exec.Command(c.thriftgo, args...)
-	cmd.Dir = idl
-	var eb bytes.Buffer
-	cmd.Stderr, cmd.Stdout = &eb, &eb
-	err := cmd.Run()
-	res.Stderr = eb.String()
-	switch e := err.(type) {
-	case nil:
-		res.Exit = 0
-	case *exec.ExitError:
-		res.Exit = e.ExitCode()
-	default:
-		res.Stderr += "\n" + err.Error()
-		return res
+	if viaWorker {
+		w := <-c.ws
+		res.Exit, res.Stderr = w.invoke(idl, args, filepath.Join(idl, ".thriftgo.log"))
+		c.ws <- w
+		c.mu.Lock()
+		c.FastRuns++
+		c.mu.Unlock()
+		if res.Exit < 0 {
+			return res
+		}
+	} else {
+		cmd := exec.Command(c.thriftgo, args...)
+		cmd.Dir = idl
+		var eb bytes.Buffer
+		cmd.Stderr, cmd.Stdout = &eb, &eb
+		err := cmd.Run()
+		res.Stderr = eb.String()
+		switch e := err.(type) {
+		case nil:
+			res.Exit = 0
+		case *exec.ExitError:
+			res.Exit = e.ExitCode()
+		default:
+			res.Stderr += "\n" + err.Error()
+			return res
+		}
 	}
 	if res.Exit != 0 {
 		return res
@@ -284,37 +323,63 @@ func firstLine(s string) string {
 	return s
 }
 
-// confirm runs the REAL toolchain (`go build ./<dir>/...` and optionally `go vet`) on the outputs of earlier
-// runs that are still on disk; returns the output lines per run directory.
-func (c *checker) confirm(dirs []string, vet bool) map[string][]string {
+var reUnitDir = regexp.MustCompile(`(?:^|[\s/])([su]\d+)/`)
+var reLoadErr = regexp.MustCompile(`import cycle not allowed|is not in std|no required module provides|cannot find package|malformed import path|no Go files in`)
+
+// goBuild runs `go build` (or `go vet`) for the directories dirs of the module mod and returns the output lines
+// per directory. A package that cannot even be LOADED (import cycle, missing package) makes the go command stop
+// before compiling anything: such directories are taken out and the rest is built again.
+func goBuild(mod string, dirs []string, vet bool) map[string][]string {
 	out := map[string][]string{}
-	if len(dirs) == 0 {
-		return out
-	}
-	mod := filepath.Join(c.root, "mod")
-	args := []string{"build"}
-	if vet {
-		args = []string{"vet"}
-	}
-	for _, d := range dirs {
-		args = append(args, "./"+d+"/...")
-	}
-	cmd := exec.Command("go", args...)
-	cmd.Dir = mod
-	cmd.Env = append(os.Environ(), goEnv...)
-	b, _ := cmd.CombinedOutput()
-	for _, ln := range strings.Split(string(b), "\n") {
-		ln = strings.TrimSpace(ln)
-		if ln == "" || strings.HasPrefix(ln, "#") {
-			continue
+	left := append([]string(nil), dirs...)
+	for round := 0; round < 8 && len(left) > 0; round++ {
+		args := []string{"build"}
+		if vet {
+			args = []string{"vet"}
 		}
-		ln = strings.TrimPrefix(ln, "vet: ")
-		ln = strings.TrimPrefix(ln, "./")
-		if i := strings.IndexByte(ln, '/'); i > 0 {
-			out[ln[:i]] = append(out[ln[:i]], ln)
-		} else {
-			out[""] = append(out[""], ln)
+		for _, d := range left {
+			args = append(args, "./"+d+"/...")
 		}
+		cmd := exec.Command("go", args...)
+		cmd.Dir = mod
+		cmd.Env = append(os.Environ(), goEnv...)
+		b, _ := cmd.CombinedOutput()
+		got := map[string][]string{}
+		loadErr := map[string]bool{}
+		cur := ""
+		for _, ln := range strings.Split(string(b), "\n") {
+			if strings.TrimSpace(ln) == "" || strings.HasPrefix(ln, "#") {
+				continue
+			}
+			t := strings.TrimPrefix(strings.TrimPrefix(strings.TrimSpace(ln), "vet: "), "./")
+			if m := reUnitDir.FindStringSubmatch(t); m != nil {
+				cur = m[1]
+			}
+			got[cur] = append(got[cur], t)
+			if reLoadErr.MatchString(t) && cur != "" {
+				loadErr[cur] = true
+			}
+		}
+		if len(loadErr) == 0 {
+			for k, v := range got {
+				out[k] = append(out[k], v...)
+			}
+			break
+		}
+		var next []string
+		for _, d := range left {
+			if loadErr[d] {
+				out[d] = append(out[d], got[d]...)
+			} else {
+				next = append(next, d)
+			}
+		}
+		left = next
 	}
 	return out
+}
+
+// confirm runs the REAL toolchain on the outputs of earlier runs that are still on disk.
+func (c *checker) confirm(dirs []string, vet bool) map[string][]string {
+	return goBuild(filepath.Join(c.root, "mod"), dirs, vet)
 }
